@@ -27,7 +27,7 @@ from .report import (
 )
 
 PROPERTIES = [f"C{i:02d}" for i in range(1, 21)]
-NOT_APPLICABLE = {"C08"}
+NOT_APPLICABLE: set = set()
 
 
 def load_rules(prop: str):
